@@ -85,6 +85,13 @@ def prepare(prog):
     renamed = snapshot.apply_renames(prog)
     if renamed:
         notes.append("renamed helpers resolved by content: %s" % renamed)
+    ren2 = inline.resolve_renamed(prog)
+    if ren2:
+        notes.append("renamed functions recognised by signature and callees: %s" % ren2)
+    from rules import common
+    common.NEW_ADTS = inline.new_adts(prog)
+    if common.NEW_ADTS:
+        notes.append("ADTs not on the reviewed tree, rendered positionally (as tuples): %s" % sorted(common.NEW_ADTS))
     inl = inline.inline_new_functions(prog)
     if inl:
         notes.append("functions not on the reviewed tree, spliced into their callers: %s" % inl)
